@@ -1,5 +1,5 @@
 SPECIFICATION Spec
-CONSTANTS Diag = {4, 6, 9}
+CONSTANTS Diag = {4, 9}
           OffMax = 3
           Depth = 4
 INVARIANT Emit
